@@ -286,7 +286,7 @@ func TestC17(t *testing.T) {
 		r.Exhaustive("Publish condition cube (2x2x4x2 cells, API and wire), all 256 subscription option bytes x empty/non-empty filter, subscription identifier boundary values")
 	}
 
-	r.Rapid(t, "publish", vf.N(8000, 2000000), func(t *rapid.T) {
+	r.Rapid(t, "publish", vf.N(16000, 2000000), func(t *rapid.T) {
 		m := gen.Packet(t, model.PUBLISH, gen.Opts{NoHuge: true})
 		// steer the four deciding fields uniformly
 		if rapid.Bool().Draw(t, "emptytopic") {
@@ -316,7 +316,7 @@ func TestC17(t *testing.T) {
 			t.Fatalf("%s", msg)
 		}
 	})
-	r.Rapid(t, "subscribe", vf.N(8000, 2000000), func(t *rapid.T) {
+	r.Rapid(t, "subscribe", vf.N(16000, 2000000), func(t *rapid.T) {
 		m := gen.Packet(t, model.SUBSCRIBE, gen.Opts{NoHuge: true})
 		switch rapid.IntRange(0, 5).Draw(t, "subid") {
 		case 0:
